@@ -59,6 +59,8 @@ def gram_passes(pid, tier):
     P = []
     if pid in ('C01', 'C02', 'C09', 'C11', 'C16', 'C06', 'C12'):
         P.append(('NT2 T2 R<=4 W<=5 L<=3, strings<=%d' % (4 if q else 5), base + ['--nt', '2', '--t', '2', '--err', '0', '--maxR', '4', '--maxlen', '4' if q else '5']))
+        if pid in ('C01', 'C11', 'C02', 'C12'):
+            P.append(('NT2 T2 R=5..6 with rules of length <=1 (W<=4), strings<=4', base + ['--nt', '2', '--t', '2', '--err', '0', '--minR', '5', '--maxR', '6', '--maxL', '1', '--maxlen', '4']))
         if pid in ('C01', 'C11', 'C12', 'C02', 'C09'):
             P.append(('NT2 T3 R<=3 W<=5, strings<=%d' % (3 if q else 4), base + ['--nt', '2', '--t', '3', '--err', '0', '--maxR', '3', '--maxlen', '3' if q else '4']))
         if pid == 'C06':
@@ -68,7 +70,7 @@ def gram_passes(pid, tier):
             P.append(('S/R grammars NT2 T2 R<=3 under every precedence/associativity assignment (both preferences)', base + ['--nt', '2', '--t', '2', '--err', '0', '--maxR', '3', '--maxlen', '0', '--with-prec', '--prec-levels', '2', '--rprec-max', '1']))
         if pid in ('C09', 'C01'):
             P.append(('NT2 T2 R<=3 W<=%d, inputs<=%d over terminals + space, newline and a foreign byte' % (4 if q else 5, 4 if q else 5), base + ['--nt', '2', '--t', '2', '--err', '0', '--maxR', '3', '--maxW', '4' if q else '5', '--maxlen', '4' if q else '5', '--rich']))
-        P.append(('seed grammars (witnesses of repaired defects)', base + ['--maxlen', '4', '--max-per-frame', '0', '--seeds', os.path.join(VERIF, 'seeds', 'gram_seeds.txt')]))
+        P.append(('seed grammars: witnesses of repaired defects, textbook shapes (LR(1)-not-LALR, kernel subset, expression grammar in all 24 rule orders, a 6-rule grammar in all 720 rule orders), each with all its one-symbol variants', base + ['--maxlen', '4', '--max-per-frame', '0', '--neighbours', '--seeds', os.path.join(VERIF, 'seeds', 'gram_seeds.txt')]))
         if not q:
             P.append(('NT3 T2 R<=4, strings<=4', base + ['--nt', '3', '--t', '2', '--err', '0', '--maxlen', '4']))
             P.append(('NT2 T2 R=5 W<=5 L<=2, strings<=4', base + ['--nt', '2', '--t', '2', '--err', '0', '--minR', '5', '--maxlen', '4']))
@@ -246,7 +248,7 @@ RX_PROPS = ('C03', 'C04', 'C10', 'C17')
 def rx_passes(pid, tier):
     q = tier == 'quick'
     if pid == 'C03':
-        return [('pattern ASTs up to %d nodes over 9 atom pools (2-3 atoms; * + ? {0..3} group cat alt); strings<=%d over byte-class representatives; pair BFS over all 256 bytes' % (4 if q else 5, 4),
+        return [('pattern ASTs up to %d nodes over 9 atom pools (2-3 atoms; * + ? {0,1,2,3,10,12} group cat alt); strings<=%d over byte-class representatives; pair BFS over all 256 bytes' % (4 if q else 5, 4),
                  ['--mode', 'c03', '--K', '4' if q else '5', '--maxlen', '4'])]
     if pid == 'C04':
         P = [('ordered term sets of size<=2 from a pool of %d term specs x inputs<=%d over {a,b,c,space,\\n,\\t,\\r,\\v} x 3 whitespace option combinations' % (12 if q else 30, 4 if q else 5),
